@@ -9,6 +9,8 @@ pub mod c13;
 pub mod c14;
 pub mod c16;
 pub mod c17;
+pub mod c18;
+pub mod c19;
 
 use crate::spec::Scenario;
 
@@ -24,6 +26,8 @@ pub fn scenario(id: &str) -> Option<Box<dyn Scenario>> {
         "C14" => Some(Box::new(c14::C14)),
         "C16" => Some(Box::new(c16::C16)),
         "C17" => Some(Box::new(c17::C17)),
+        "C18" => Some(Box::new(c18::C18)),
+        "C19" => Some(Box::new(c19::C19)),
         _ => None,
     }
 }
